@@ -70,9 +70,13 @@ def handle (tb : Tables) (c impl : T) : String :=
             let fl := (if d51 && model.any (fun o => match o with | .err _ => true | _ => false) then ["D51"] else []) ++
                       (if d47 && model.any (fun o => o == .unbound) then ["D47"] else [])
             if fl.isEmpty then "unattributed " ++ (T.list cur).render else "dev " ++ ",".intercalate fl)
+       else if tb.ptrValueDistinct && !specOk then
+         -- (D102) bound to the exact reflect.Type first seen: a value and a pointer to it are told apart, which the
+         -- binding model (one Go type per struct) does not do
+         "dev D102"
        else "mismatch " ++ (if specOk then "spec-ok " else "spec-bad ") ++ (T.list cur).render)
   | _, _ => C01.handle tb c impl
 
-def flags (tb : Tables) : List (String × Bool) := [("D14", (cfgCur tb).condByIdentity), ("D51", tb.unionFirstCome), ("D47", tb.ifaceNeedsBound)]
+def flags (tb : Tables) : List (String × Bool) := [("D14", (cfgCur tb).condByIdentity), ("D51", tb.unionFirstCome), ("D47", tb.ifaceNeedsBound), ("D102", tb.ptrValueDistinct)]
 
 end Ggql.Driver.C08
